@@ -75,9 +75,43 @@ def run_h1(ctx, rec):
                           "trace": [list(map(str, t)) for t in ex.trace][-60:], "how_to_replay": "concur.run_one(runtime, cfg, seed)"})
 
 
+def run_fault_positions(ctx, rec):
+    """every fault (error and time-out) at every network operation of one request, on every connection kind, first use and reuse,
+    connect retries 0 and 2: the request head appears on at most one connection"""
+    import sweep
+    import sweeprun
+    for kind in sweep.KINDS:
+        for shape in sweeprun.SHAPES:
+            if shape.get("queued"):
+                continue
+            for retries in (0, 2):
+                for rt in (("asyncio",) if ctx.quick else ("asyncio", "trio")):
+                    base = sweep.run_case(rt, kind, shape, None, yield_in_ops=False, retries=retries)
+                    nops = len(base.get("net_ops", []))
+                    if base.get("a_heads") != 1:
+                        rec.fail("C14:request-sent-twice" if base.get("a_heads", 0) > 1 else "C14:clean-run-without-head", {"kind": kind},
+                                 {"kind": kind, "shape": shape, "heads": base.get("a_heads")})
+                    for k in range(nops):
+                        op = base["net_ops"][k][0]
+                        for exc in {"connect_tcp": ["ConnectError", "ConnectTimeout"], "connect_unix_socket": ["ConnectError"],
+                                    "start_tls": ["ConnectError", "ConnectTimeout"], "read": ["ReadError", "ReadTimeout"],
+                                    "write": ["WriteError", "WriteTimeout"]}[op]:
+                            res = sweep.run_case(rt, kind, shape, ("fault", k, exc), yield_in_ops=False, retries=retries)
+                            rec.evals += 1
+                            rec.distinct.add(("fault-position", kind, str(shape), retries, rt, k, exc))
+                            rec.dist[f"fault-position:heads:{res.get('a_heads')}"] += 1
+                            rec.dist[f"fault-position:outcome:{res.get('a_outcome')}"] += 1
+                            if res.get("a_heads", 0) > 1:
+                                rec.fail("C14:request-sent-twice", {"proto": kind, "where": "fault-position"},
+                                         {"kind": kind, "shape": shape, "retries": retries, "runtime": rt, "inject": ["fault", k, exc],
+                                          "heads": res.get("a_heads"), "outcome": res.get("a_outcome"),
+                                          "how_to_replay": "sweep.run_case(runtime, kind, shape, inject, yield_in_ops=False, retries=retries)"})
+
+
 def run(ctx, driver):
     rng = ctx.rng
     rec = propbase.Rec(ctx, ID)
+    run_fault_positions(ctx, rec)
     if driver:
         # the regenerated GOAWAY test, evaluated by the model, against the statement's rule on a grid (the theorem covers all ids)
         pairs = [(s, l) for s in (0, 1, 3, 5, 7, 101) for l in (0, 1, 3, 5, 6, 99, 101, 103)]
@@ -92,7 +126,9 @@ def run(ctx, driver):
     h2x.explore(ctx, rec, ID, PROFILES["faults"], 120, 3000, WANT)
     h2x.explore(ctx, rec, ID, PROFILES["chunked-bodies"], 80, 2000, WANT)
     return rec.finish("C14 head counting over fault / GOAWAY schedules",
-                      "HTTP/1.1: 2-5 callers, 1-3 connections, read/write/connect faults and time-outs at random operations, server-side closes, "
+                      "Fault positions: for each of 8 connection kinds (direct, TLS, HTTP/2, forward / tunnel proxies, SOCKS5), first use and reuse, "
+                      "connect retries 0 and 2: every error and time-out at every network operation of one request; the head appears on at most "
+                      "one connection. HTTP/1.1: 2-5 callers, 1-3 connections, read/write/connect faults and time-outs at random operations, server-side closes, "
                       "Connection: close responses, retries 0/2, under asyncio and trio; per call the number of sockets on which its request line "
                       "was written is at most 1. HTTP/2: 2-6 concurrent requests (some still uploading) over up to 2 connections; GOAWAY with any "
                       "consistent last-stream-id at any moment, EOF, read/write faults; per call the number of (connection, stream) pairs on which an "
